@@ -25,8 +25,11 @@ RULE = ("(a well-formed host may answer the two probes in different reply format
 ASSUMPTIONS = ["a V1 (XML) responder whose advertised TCP port refuses connections counts as a bad responder"]
 
 
-def _good_host(i: int, version: int, tt: int = 0xAC) -> dict:
-    return {"ip": f"10.0.0.{10 + i}", "id": 0x10203040 + i * 0x1000001, "port": 6444, "sn": f"SN{i:030d}", "tt": tt, "suffix": f"A{i}B", "version": version,
+GOOD_IPS = ["10.0.0.10", "10.0.0.11", "192.168.1.12", "100.64.0.13", "172.32.0.14", "8.8.4.15", "169.254.7.16", "198.18.0.17"]
+
+
+def _good_host(i: int, version: int, tt: int = 0xAC, wide: bool = False) -> dict:
+    return {"ip": GOOD_IPS[i % len(GOOD_IPS)] if wide else f"10.0.0.{10 + i}", "id": 0x10203040 + i * 0x1000001, "port": 6444, "sn": f"SN{i:030d}", "tt": tt, "suffix": f"A{i}B", "version": version,
             "listen_port": [6445, 20086][i % 2], "extra": bytes(16).hex()}
 
 
@@ -50,7 +53,7 @@ def check_case(case: dict):
                 payload = discsim.bad_reply(h["kind"], h["args"][k % len(h["args"])], h["ip"])
             delay = 0.01 + pos * case.get("spacing", 0.001) + pos * 1e-6       # (arrival order = `order`, also for spacing 0)
             per_host[hi].append((delay, [6445, 20086][(pos + hi) % 2], payload))
-        routes = {"10.255.255.255": [h["ip"] for h in hosts]} if case.get("target") == "directed" else {}
+        routes = {"10.255.255.255": [h["ip"] for h in hosts]} if (case.get("target") == "directed" or case.get("api") == "single") else {}
         world = discsim.UdpWorld(net, [dict(ip=h["ip"], listen_port=h.get("listen_port", 6445), replies=per_host[i]) for i, h in enumerate(hosts)], routes)
         auto = bool(case.get("auto_connect")) and (case.get("cloud") or not any(h["good"] and h["version"] == 3 for h in hosts))   # V3 auto-connect needs the cloud
         auto = auto and not any(h.get("alt") for h in hosts)      # (a host answering in both formats is not backed by a model device)
@@ -70,7 +73,12 @@ def check_case(case: dict):
                         t, k = creds_for(rc.udpid((h["id"] & 0xFFFFFFFFFFFF).to_bytes(6, "little")).hex())
                         net.listen(h["ip"], h["port"], SimDevice(loop, version=3, device_id=h["id"] & 0xFFFFFFFFFFFF, token=bytes.fromhex(t), key=bytes.fromhex(k), ac=ModelAC()))
         try:
-            if case.get("target") == "directed":
+            if case.get("api") == "single":
+                # the single-device entry point, pointed at an address several hosts answer for: it reports one device
+                d = await Discover.discover_single("10.255.255.255", auto_connect=auto, timeout=5, **kw)
+                res["single"] = d
+                res["devices"] = [d] if d is not None else []
+            elif case.get("target") == "directed":
                 res["devices"] = await Discover.discover(target="10.255.255.255", auto_connect=auto, timeout=5, **kw)
             else:
                 res["devices"] = await Discover.discover(auto_connect=auto, timeout=5, **kw)
@@ -88,7 +96,12 @@ def check_case(case: dict):
     got = sorted(d.ip for d in devs)
     replied = {hosts[hi]["ip"] for hi in order}
     want = sorted(h["ip"] for h in hosts if h["good"] and h["ip"] in replied)
-    if got != want:
+    if case.get("api") == "single":
+        if want and (len(got) != 1 or got[0] not in want):
+            return ("single/result", f"discover_single reported {got} although well-formed hosts {want} answered; hosts {[(h['ip'], 'good' if h['good'] else h['kind']) for h in hosts]} order {order}")
+        if not want and got:
+            return ("single/result", f"discover_single reported {got}, no well-formed host answered")
+    elif got != want:
         return ("result-set", f"reported {got}, good responders {want}; hosts {[(h['ip'], 'good' if h['good'] else h['kind']) for h in hosts]} order {order}")
     for d in devs:
         h = next(x for x in hosts if x["ip"] == d.ip)
@@ -192,6 +205,30 @@ def run(ctx) -> None:
                     case = {"hosts": hs, "order": order, "target": "directed" if e % 3 == 0 else None}
                     ctx.check(case, lambda c: _run_one(ctx, c))
     ctx.sweep("embedded address differs from the source address x arrival orders", e, True)
+    # the single-device entry point with a malformed responder answering before / after / between well-formed ones
+    sg = 0
+    for kind in discsim.BAD_KINDS:
+        args = _args_for(kind, rnd_bytes)
+        for order in ([1, 0], [0, 1], [1, 1, 0], [1, 0, 2], [2, 1, 0]):
+            for spacing in (0.001, 0.2):
+                sg += 1
+                if ctx.mine(sg):
+                    hs = [dict(_good_host(0, 2 + sg % 2), good=True, kind="good"), _bad_host(0, kind, [args[sg % len(args)]]), dict(_good_host(1, 3 - sg % 2), good=True, kind="good")]
+                    case = {"hosts": hs, "order": order, "api": "single", "spacing": spacing}
+                    ctx.check(case, lambda c: _run_one(ctx, c))
+    ctx.sweep("discover_single x malformed responder position x spacing", sg, True)
+    # hosts in every kind of address range (private, carrier-grade NAT, link-local, public, benchmark)
+    w = 0
+    for i in range(len(GOOD_IPS)):
+        for bad in (None, ("cut", 17), ("xml", 2)):
+            w += 1
+            if ctx.mine(w):
+                hs = [dict(_good_host(i, 2 + i % 2, wide=True), good=True, kind="good"), dict(_good_host((i + 3) % len(GOOD_IPS), 3 - i % 2, wide=True), good=True, kind="good")]
+                if bad:
+                    hs.append(_bad_host(0, bad[0], [bad[1]]))
+                case = {"hosts": hs, "order": list(range(len(hs))) + [0], "target": "directed" if w % 2 else None}
+                ctx.check(case, lambda c: _run_one(ctx, c))
+    ctx.sweep("well-formed hosts in private / CGNAT / link-local / public address ranges", w, True)
     # one host answering in both formats, with other traffic (hence loop iterations) in between
     v = 0
     for first, alt in ((2, 3), (3, 2)):
@@ -223,7 +260,7 @@ def run(ctx) -> None:
         hosts = []
         for i, (good, version, tt, kind, seed) in enumerate(spec["hosts"]):
             if good:
-                hosts.append(dict(_good_host(i, version, tt), good=True, kind="good"))
+                hosts.append(dict(_good_host(i, version, tt, wide=seed % 2 == 1), good=True, kind="good"))
                 if seed % 5 == 0:
                     hosts[-1]["alt"] = 5 - version
             else:
@@ -235,13 +272,13 @@ def run(ctx) -> None:
             if h["good"] and e:
                 h["reported_ip"] = {"next": hosts[(i + 1) % len(hosts)]["ip"], "prev": hosts[i - 1]["ip"], "zero": "0.0.0.0", "other": "192.168.77.7"}[e]
         return {"hosts": hosts, "order": order, "auto_connect": spec["auto"] and not any(h.get("reported_ip") for h in hosts), "spacing": spec["spacing"], "target": spec["target"],
-                "cloud": spec.get("cloud", False)}
+                "cloud": spec.get("cloud", False), "api": "single" if (spec.get("single") and spec["target"] != "directed") else None}
 
     host = st.tuples(st.booleans(), st.sampled_from([2, 3]), st.sampled_from([0xAC, 0xAC, 0xA1, 0xFF]), st.sampled_from(discsim.BAD_KINDS), st.integers(0, 60))
     embed = st.sampled_from([None, None, "next", "prev", "zero", "other"])
     cases = st.fixed_dictionaries({"hosts": st.lists(host, min_size=1, max_size=4), "order": st.lists(st.integers(0, 3), min_size=1, max_size=14),
                                    "auto": st.booleans(), "spacing": st.sampled_from([0.0, 0.001, 0.2]), "target": st.sampled_from([None, None, "directed"]),
-                                   "embed": st.lists(embed, min_size=4, max_size=4), "cloud": st.booleans()}).map(mk_case)
+                                   "embed": st.lists(embed, min_size=4, max_size=4), "cloud": st.booleans(), "single": st.sampled_from([False, False, False, True])}).map(mk_case)
     ctx.hyp("random", cases, lambda c: _run_one(ctx, c), ctx.n(4000, 200000))
     # byte-level search (atheris/libFuzzer) over raw datagrams and fuzzer-chosen bodies inside well-formed envelopes; an
     # additional search, the verdict never depends on it being available
